@@ -36,7 +36,7 @@ func opEquals(cond ssa.Value, toks ...token.Token) (bool, bool) {
 
 func c12(r *core.Run) {
 	p := r.P
-	r.Explain = "C12 decided structurally: (IV) an induction variable is recorded only after: integer result type; the recognised update is the value on every in-loop phi edge (checked for every predecessor, bail-out on the first mismatch); all out-of-loop edges agree on one start value; the step is loop-invariant; a start value exists; the operator is ADD/SUB/MUL with 'phi on the right of SUB' rejected; only ADD/SUB yield a basic IV and only basic IVs are rewritten to {start,+,step} in the canonical IR; SUB negates the step; (TRIP) a computed trip count (a max(0,…) expression or the constant 0) is stored only after: exactly one exiting block; that block is the loop header, its true successor stays in the loop and its false successor leaves it; the compared IV is basic; the limit is loop-invariant. Not decided: the ceiling-division arithmetic, integer wrap-around, agreement with concrete executions."
+	r.Explain = "C12 decided structurally: (IV) an induction variable is recorded only after: integer result type; the recognised update is the value on every in-loop phi edge (checked for every predecessor, bail-out on the first mismatch); all out-of-loop edges agree on one start value; the step is loop-invariant; a start value exists; the operator is ADD/SUB/MUL with 'phi on the right of SUB' rejected; only ADD/SUB yield a basic IV and only basic IVs are rewritten to {start,+,step} in the canonical IR; SUB negates the step; (TRIP) a computed trip count (a max(0,…) expression or the constant 0) is stored only after: exactly one exiting block; that block is the loop header, its true successor stays in the loop and its false successor leaves it; the compared IV is basic; the limit is loop-invariant. Not decided: the ceiling-division arithmetic, integer wrap-around, agreement with concrete executions. (IV, sharpened) the back-edge verification is reached for every in-loop predecessor; (CONST) an SSA constant becomes a symbolic constant only through a literal or the exact decimal text (no fixed-width accessor)."
 	r.Undecided = []string{"arithmetic of the trip-count formula ((limit-start+step-1)/step etc.)", "integer wrap-around of narrow induction variables", "agreement on concrete argument vectors (runtime)"}
 
 	var classifier, tripper *ssa.Function
